@@ -21,17 +21,34 @@ class SrcErr(Exception):
         self.code = code
 
 
+def core_cases():
+    """every adapter with: an early stop far from the end; a source that fails after a few elements, with one slot, with a
+    full queue drained at once (slow first element), and with a consumer that keeps up"""
+    out = []
+    long = [['d', i] for i in range(100)]
+    failing = [['d', i] for i in range(5)] + [['e', 2]]
+    for op in ('synciter', 'asynciter', 'abuffer'):
+        out.append({'op': op, 'src': long, 'stop_after': 2, 'slots': 3, 'stop_kind': 'break', 'cons_ms': 5, 'src_ms': 0})
+        out.append({'op': op, 'src': failing, 'stop_after': None, 'slots': 1, 'stop_kind': 'break', 'cons_ms': 0, 'src_ms': 0})
+        out.append({'op': op, 'src': failing, 'stop_after': None, 'slots': 3, 'stop_kind': 'break', 'cons_ms': 0, 'src_ms': 0, 'first_ms': 300})
+        out.append({'op': op, 'src': failing, 'stop_after': None, 'slots': 2, 'stop_kind': 'break', 'cons_ms': 20, 'src_ms': 1})
+    return out
+
+
 def gen_case(rng, idx):
-    op = ['synciter', 'asynciter', 'abuffer'][idx % 3] if idx < 9 else rng.choice(['synciter', 'synciter', 'asynciter', 'abuffer'])
-    n = rng.choice([0, 1, 2, 3, 5, 8, 30, 100]) if idx >= 3 else 100
+    core = core_cases()
+    if idx < len(core):
+        return core[idx]
+    op = rng.choice(['synciter', 'synciter', 'asynciter', 'abuffer', 'abuffer'])
+    n = rng.choice([0, 1, 2, 3, 5, 8, 30, 100])
     table = [['d', i] for i in range(n)]
-    if idx >= 3 and rng.random() < 0.3:
+    if rng.random() < 0.4:
         table.insert(rng.randrange(0, n + 1), ['e', rng.randrange(1, 4)])
         table = table[:[k for k, _ in table].index('e') + 1]
-    stop = rng.choice([None, None, 1, 2, 3, 6]) if idx >= 3 else 2
+    stop = rng.choice([None, None, 1, 2, 3, 6])
     return {'op': op, 'src': table, 'stop_after': stop, 'slots': rng.choice([1, 1, 2, 3, 6]),
             'stop_kind': rng.choice(['break', 'break', 'cancel', 'gc']) if op != 'synciter' else rng.choice(['break', 'gc']),
-            'cons_ms': rng.choice([0, 0, 5, 20]), 'src_ms': rng.choice([0, 0, 1])}
+            'cons_ms': rng.choice([0, 0, 5, 20]), 'src_ms': rng.choice([0, 0, 1]), 'first_ms': rng.choice([0, 0, 0, 100])}
 
 
 def run_case(c):
@@ -68,7 +85,9 @@ def run_case(c):
                     if c['stop_after'] is not None and len(out) >= c['stop_after']:
                         res['outcome'] = ['broke']
                         break
-                    if c['cons_ms']:
+                    if len(out) == 1 and c.get('first_ms'):
+                        time.sleep(c['first_ms'] / 1000)       # the queue fills behind the consumer, which then drains at once
+                    elif c['cons_ms']:
                         time.sleep(c['cons_ms'] / 1000)
                 else:
                     res['outcome'] = ['completed']
@@ -97,7 +116,9 @@ def run_case(c):
                             continue
                         res['outcome'] = ['broke']
                         break
-                    if c['cons_ms']:
+                    if len(out) == 1 and c.get('first_ms'):
+                        time.sleep(c['first_ms'] / 1000)       # (blocks the loop on purpose: the queue fills, then is drained at once)
+                    elif c['cons_ms']:
                         await asyncio.sleep(c['cons_ms'] / 1000)
                 else:
                     res['outcome'] = ['completed']
